@@ -231,7 +231,7 @@ static void graphChain(long n, bool comb, int threads) {
     }
     prev = &nd;
   }
-  dispenso::setAllNodesIncomplete(g);
+  setAllNodesIncomplete(g); // (found by ADL: the only declaration is the friend declaration in Node)
   dispenso::ConcurrentTaskSet tasks(pool);
   dispenso::ConcurrentTaskSetExecutor exec;
   exec(tasks, g);
